@@ -11,7 +11,8 @@ trimmed mosaics (numerical tables).
 import ast
 
 from sa import AnalysisError
-from sa.astutil import dotted, src, stmt_text, params, find_stmts, calls_in, method_name, const
+from sa.pattern import pmatch, pfind
+from sa.astutil import dotted, src, stmt_text, params, find_stmts, calls_in, method_name, const, resolved_return, deep_resolved
 
 
 def _major_factor(e):
@@ -168,26 +169,35 @@ def run(model, rep, tier):
     M = model.cls('sample:_Mul')
     for name in ('getindex', 'get_evaluable_indices', 'get_evaluable_weights', 'get_lower_args'):
         f = M.members[name].func
-        dm = [c for c in calls_in(f.node) if method_name(c) == 'divmod']
-        ok = len(dm) == 1 and len(dm[0].args) == 2 and src(dm[0].args[1]) == 'self._sample2.nelems' and src(dm[0].args[0]) == params(f.node)[0][1]
-        unp = [s for s in find_stmts(f.body, lambda s: isinstance(s, ast.Assign)) if s.value is (dm[0] if dm else None)]
-        ok = ok and len(unp) == 1 and [src(e) for e in unp[0].targets[0].elts] == ['ielem1', 'ielem2']
+        # decided on what the member returns, with its locals resolved (sa.pattern): the names of the intermediate values do not matter
+        raw = params(f.node)[0][1]
+        R = resolved_return(f.node)
+        dms = {src(c) for c in ast.walk(R) if isinstance(c, ast.Call) and method_name(c) == 'divmod'} if R is not None else set()
+        DM = {f'divmod({raw}, self._sample2.nelems)', f'evaluable.divmod({raw}, self._sample2.nelems)'}
+        ok = len(dms) == 1 and dms <= DM
         rep.ob('R09.1', f.key, f.where(), ok, 'element index decomposed as divmod(ielem, sample2.nelems) -> (ielem1, ielem2)' if ok else
                f'_Mul.{name} does not decompose the element index with divmod(ielem, self._sample2.nelems): it disagrees with the sibling members and with nelems = n1*n2 (second factor fastest)', statement=f'{name}: divisor')
-        t = src(f.node)
-        ok = 'self._sample1.' + name + '(ielem1)' in t and 'self._sample2.' + name + '(ielem2)' in t
+        dm = next(iter(dms)) if dms else '?'
+        t = src(R) if R is not None else ''
+        c1 = [c for c in ast.walk(R) if isinstance(c, ast.Call) and src(c.func) == f'self._sample1.{name}'] if R is not None else []
+        c2 = [c for c in ast.walk(R) if isinstance(c, ast.Call) and src(c.func) == f'self._sample2.{name}'] if R is not None else []
+        ok = bool(c1) and bool(c2) and all(len(c.args) == 1 and src(c.args[0]) == f'{dm}[0]' for c in c1) and all(len(c.args) == 1 and src(c.args[0]) == f'{dm}[1]' for c in c2)
         rep.ob('R09.1', f.key, f.where(), ok, 'factor 1 receives ielem1, factor 2 receives ielem2' if ok else f'_Mul.{name} passes the decomposed indices to the wrong factors', statement=f'{name}: routing')
     g = M.members['getindex'].func
-    ok = 'index1[:, None] * self._sample2.npoints + index2[None, :]' in src(g.node) and '.ravel()' in src(g.node)
+    m = pmatch('(I1_[:, None] * self._sample2.npoints + I2_[None, :]).ravel()', resolved_return(g.node))
+    ok = m is not None and src(m['I1_']).startswith('self._sample1.getindex(') and src(m['I2_']).startswith('self._sample2.getindex(')
     rep.ob('R09.1', g.key, g.where(), ok, 'point index = index1 * sample2.npoints + index2' if ok else '_Mul.getindex no longer strides by self._sample2.npoints', statement='getindex: stride')
     g = M.members['get_evaluable_indices'].func
-    ok = 'evaluable.appendaxes(index1 * self._sample2.npoints, index2.shape) + evaluable.prependaxes(index2, index1.shape)' in src(g.node)
+    m = pmatch('evaluable.appendaxes(I1_ * self._sample2.npoints, I2_.shape) + evaluable.prependaxes(I2_, I1_.shape)', resolved_return(g.node))
+    ok = m is not None and src(m['I1_']).startswith('self._sample1.get_evaluable_indices(') and src(m['I2_']).startswith('self._sample2.get_evaluable_indices(')
     rep.ob('R09.1', g.key, g.where(), ok, 'evaluable point index = index1 * sample2.npoints (+axes) + index2' if ok else '_Mul.get_evaluable_indices strides differently from getindex', statement='evaluable-indices: stride')
     g = M.members['get_evaluable_weights'].func
-    ok = "evaluable.einsum('A,B->AB', weights1, weights2)" in src(g.node)
+    m = pmatch("evaluable.einsum('A,B->AB', W1_, W2_)", resolved_return(g.node))
+    ok = m is not None and src(m['W1_']).startswith('self._sample1.get_evaluable_weights(') and src(m['W2_']).startswith('self._sample2.get_evaluable_weights(')
     rep.ob('R09.1', g.key, g.where(), ok, 'weights are the outer product in factor order' if ok else '_Mul weights are no longer the outer product weights1 x weights2', statement='weights: outer')
     g = M.members['get_lower_args'].func
-    ok = 'self._sample1.get_lower_args(ielem1) * self._sample2.get_lower_args(ielem2)' in src(g.node)
+    m = pmatch('self._sample1.get_lower_args(A_) * self._sample2.get_lower_args(B_)', resolved_return(g.node))
+    ok = m is not None
     rep.ob('R09.1', g.key, g.where(), ok, 'lower args multiply in factor order', statement='lower-args: order')
     init = M.members['__init__'].func
     ok = 'sample1.nelems * sample2.nelems, sample1.npoints * sample2.npoints' in src(init.node) and 'sample1.spaces + sample2.spaces' in src(init.node)
@@ -210,7 +220,9 @@ def run(model, rep, tier):
         rep.ob('R09.1', f.key, f.where(), ok, f'{name} of part 2 is shifted by sample1.npoints', statement=f'{name}: offset')
     f = Ad.members['take_elements'].func
     t = src(f.node)
-    ok = 'numpy.less(__indices, self._sample1.nelems)' in t and '__indices[~mask] - self._sample1.nelems' in t and '__indices[mask]' in t
+    MK = 'numpy.less(__indices, self._sample1.nelems)'
+    m = pmatch('self._sample1.take_elements(__indices[M1_]) + self._sample2.take_elements(__indices[~M2_] - self._sample1.nelems)', resolved_return(f.node))
+    ok = m is not None and src(m['M1_']) == MK and src(m['M2_']) == MK
     rep.ob('R09.1', f.key, f.where(), ok, 'take_elements splits at sample1.nelems like getindex', statement='take_elements: split')
     f = Ad.members['_integral'].func
     ok = 'self._sample1.integral(func) + self._sample2.integral(func)' in src(f.node)
@@ -224,22 +236,31 @@ def run(model, rep, tier):
     # R09.2
     I = model.cls('sample:_Integral').members['lower'].func
     t = src(I.node)
-    li = [s for s in I.body if isinstance(s, ast.Assign) and isinstance(s.value, ast.Call) and src(s.value.func) == 'evaluable.loop_index']
-    ok = len(li) == 1 and 'self._sample.nelems' in src(li[0].value)
-    idx = src(li[0].targets[0]) if li else '?'
+    R = resolved_return(I.node)
+    m = pmatch('evaluable.loop_sum(E_, IDX_)', R)
+    li = {src(c) for c in ast.walk(R) if isinstance(c, ast.Call) and src(c.func) == 'evaluable.loop_index'} if R is not None else set()
+    ok = m is not None and len(li) == 1 and pmatch('evaluable.loop_index(N_, self._sample.nelems)', m['IDX_']) is not None
     rep.ob('R09.2', I.key, I.where(), ok, 'one loop index over the sample elements', statement='loop-index')
-    ok = f'self._sample.get_evaluable_weights({idx})' in t and f'self._sample.get_lower_args({idx})' in t and f'evaluable.loop_sum(elem_integral, {idx})' in t
+    m2 = pmatch("evaluable.einsum('B,ABC->AC', W_, G_, B=W_.ndim, C=self.ndim)", m['E_']) if m is not None else None
+    ok = m2 is not None
+    rep.ob('R09.2', I.key, I.where(), ok, 'element integral = sum over point axes of weight * integrand' if ok else 'the contraction of weights with the integrand changed', statement='contraction')
+    mw = pmatch('evaluable.astype(self._sample.get_evaluable_weights(IDX_), self.dtype)', m2['W_'], {'IDX_': m['IDX_']}) if m2 is not None else None
+    mg = pmatch('evaluable.astype(self._integrand.lower(A_), self.dtype)', m2['G_']) if m2 is not None else None
+    ma = pmatch('args * self._sample.get_lower_args(IDX_)', mg['A_'], {'IDX_': m['IDX_']}) if mg is not None else None
+    ok = mw is not None and mg is not None and ma is not None
     rep.ob('R09.2', I.key, I.where(), ok, 'weights, lower args and the loop sum use the same element index' if ok else
            '_Integral.lower takes weights, lower args and the reduction from different indices', statement='same-index')
-    ok = "evaluable.einsum('B,ABC->AC', weights, integrand, B=weights.ndim, C=self.ndim)" in t
-    rep.ob('R09.2', I.key, I.where(), ok, 'element integral = sum over point axes of weight * integrand' if ok else 'the contraction of weights with the integrand changed', statement='contraction')
-    ok = 'self._integrand.lower(args * self._sample.get_lower_args(' in t
+    ok = mg is not None and pmatch('args * self._sample.get_lower_args(X_)', mg['A_']) is not None
     rep.ob('R09.2', I.key, I.where(), ok, 'the integrand is lowered at the sample points appended to the outer points', statement='lower-order')
     C = model.cls('sample:_ConcatenatePoints').members['lower'].func
     t = src(C.node)
-    li = [s for s in C.body if isinstance(s, ast.Assign) and isinstance(s.value, ast.Call) and src(s.value.func) == 'evaluable.loop_index']
-    idx = src(li[0].targets[0]) if li else '?'
-    ok = len(li) == 1 and f'self._sample.get_lower_args({idx})' in t and f'evaluable.loop_concatenate(func, {idx})' in t
+    lc = [c for c in calls_in(C.node) if src(c.func) == 'evaluable.loop_concatenate' and len(c.args) == 2]
+    gl = [c for c in calls_in(C.node) if src(c.func) == 'self._sample.get_lower_args' and len(c.args) == 1]
+    li = {src(c) for c in calls_in(C.node) if src(c.func) == 'evaluable.loop_index'}
+    ok = len(lc) == 1 and len(gl) == 1 and len(li) == 1
+    if ok:  # whatever the index is called: both resolve to the one loop index
+        idx = src(deep_resolved(C.node, lc[0].args[1]))
+        ok = idx in li and src(deep_resolved(C.node, gl[0].args[0])) == idx
     rep.ob('R09.2', C.key, C.where(), ok, 'points are concatenated over the same element index that produced them', statement='concatenate-index')
     # R09.1c: a composite sample never hands its own raw element index to a component's accessor (index spaces differ)
     ACCESSORS = ('getindex', 'get_evaluable_indices', 'get_evaluable_weights', 'get_lower_args', 'get_element_tri', 'get_element_hull')
@@ -265,7 +286,8 @@ def run(model, rep, tier):
                            f'(the sibling members first map it through divmod / self._ielems / self._indices)', statement=f'raw index to component in {mem.name}')
     z = model.cls('sample:_Zip').members['get_evaluable_weights'].func
     t = src(z.node)
-    ok = 'ielem0 = evaluable.Take(evaluable.Constant(self._ielems[0]), ielem)' in t and 'self._samples[0].get_evaluable_weights(ielem0)' in t and 'slice0 = evaluable.Take(evaluable.Constant(self._ilocals[0]), self._getslice(ielem))' in t
+    ok = pmatch('evaluable._take(evaluable._flat(self._samples[0].get_evaluable_weights(evaluable.Take(evaluable.Constant(self._ielems[0]), ielem))), '
+                'evaluable.Take(evaluable.Constant(self._ilocals[0]), self._getslice(ielem)), axis=0)', resolved_return(z.node)) is not None
     rep.ob('R09.1', z.key, z.where(), ok, 'zip weights: first sample\'s weights at its own element index, restricted to the zipped points' if ok else
            '_Zip.get_evaluable_weights no longer looks the weights up at the first sample\'s own element index (self._ielems[0]) and local slice', statement='zip-weights')
     # R09.4: transformed points scale the weights by the ABSOLUTE determinant (reflected children have negative determinants)
